@@ -68,19 +68,12 @@ func RunSet(id string, opts GlobalOptions) error {
 			return err
 		}
 		agentID := opts.AgentID
-		if err := applySetUpdates(dir, opts, id, updates, agentID, opts.JSON); err != nil {
+		task, _, err := applySetUpdates(dir, opts, id, updates, agentID, opts.JSON)
+		if err != nil {
 			return err
 		}
 
 		if opts.JSON {
-			graph, err := loadGraph(dir)
-			if err != nil {
-				return err
-			}
-			task := graph.Tasks[id]
-			if task == nil {
-				return fmt.Errorf("unknown task id %s", id)
-			}
 			return writeJSON(os.Stdout, setOutput{
 				Kind:          "set",
 				ID:            id,
@@ -137,19 +130,12 @@ func RunSet(id string, opts GlobalOptions) error {
 			return err
 		}
 		agentID := opts.AgentID
-		if err := applySetUpdates(dir, opts, id, updates, agentID, opts.JSON); err != nil {
+		task, _, err := applySetUpdates(dir, opts, id, updates, agentID, opts.JSON)
+		if err != nil {
 			return err
 		}
 
 		if opts.JSON {
-			graph, err := loadGraph(dir)
-			if err != nil {
-				return err
-			}
-			task := graph.Tasks[id]
-			if task == nil {
-				return fmt.Errorf("unknown task id %s", id)
-			}
 			return writeJSON(os.Stdout, setOutput{
 				Kind:          "set",
 				ID:            id,
@@ -193,19 +179,12 @@ func RunSet(id string, opts GlobalOptions) error {
 	}
 
 	agentID := opts.AgentID
-	if err := applySetUpdates(dir, opts, id, updates, agentID, opts.JSON); err != nil {
+	task, _, err := applySetUpdates(dir, opts, id, updates, agentID, opts.JSON)
+	if err != nil {
 		return err
 	}
 
 	if opts.JSON {
-		graph, err := loadGraph(dir)
-		if err != nil {
-			return err
-		}
-		task := graph.Tasks[id]
-		if task == nil {
-			return fmt.Errorf("unknown task id %s", id)
-		}
 		return writeJSON(os.Stdout, setOutput{
 			Kind:          "set",
 			ID:            id,
@@ -237,21 +216,13 @@ func RunClaim(id string, opts GlobalOptions) error {
 	if err != nil {
 		return err
 	}
-	if err := applySetUpdates(dir, opts, id, updates, agentID, true); err != nil {
-		return err
-	}
-
-	graph, err := loadGraph(dir)
+	task, meta, err := applySetUpdates(dir, opts, id, updates, agentID, true)
 	if err != nil {
 		return err
 	}
-	task := graph.Tasks[id]
-	if task == nil {
-		return errors.New("internal error: missing claimed task")
-	}
 
 	if opts.JSON {
-		claimedAt := claimedAtForTask(task, graph.Meta[id])
+		claimedAt := claimedAtForTask(task, meta)
 		return writeJSON(os.Stdout, map[string]interface{}{
 			"id":         task.ID,
 			"epic":       task.EpicID,
@@ -395,14 +366,25 @@ func buildUpdatedFields(input *TaskInput) []string {
 	return fields
 }
 
-func applySetUpdates(dir string, opts GlobalOptions, id string, updates map[string]string, agentID string, quiet bool) error {
+// applySetUpdates validates and records the field updates for one item under the
+// lock and returns the item as the recorded events leave it. The reply is
+// computed inside the locked step, before the commit, so a command never has to
+// re-read the log (and possibly fail, or see another writer's changes) after it
+// has already changed the store.
+func applySetUpdates(dir string, opts GlobalOptions, id string, updates map[string]string, agentID string, quiet bool) (*Task, *TaskMeta, error) {
 	lockPath := filepath.Join(dir, "lock")
 	eventsPath := getEventsPath(dir)
 
 	repoDir := filepath.Dir(dir)
 
-	return withLock(lockPath, syscall.LOCK_EX, func() error {
-		graph, err := loadGraph(dir)
+	var updated *Task
+	var updatedMeta *TaskMeta
+	err := withLock(lockPath, syscall.LOCK_EX, func() error {
+		existing, err := readEvents(eventsPath)
+		if err != nil {
+			return err
+		}
+		graph, err := replayEvents(existing)
 		if err != nil {
 			return err
 		}
@@ -446,14 +428,29 @@ func applySetUpdates(dir string, opts GlobalOptions, id string, updates map[stri
 			return err
 		}
 
+		// What the item looks like once these events are in the log.
+		after, err := replayEvents(append(existing[:len(existing):len(existing)], events...))
+		if err != nil {
+			return err
+		}
+		result := after.Tasks[id]
+		if result == nil {
+			return fmt.Errorf("unknown task id %s", id)
+		}
+
 		if err := appendEvents(eventsPath, events); err != nil {
 			return err
 		}
+		updated, updatedMeta = result, after.Meta[id]
 		if !quiet {
 			fmt.Println(id)
 		}
 		return nil
 	})
+	if err != nil {
+		return nil, nil, err
+	}
+	return updated, updatedMeta, nil
 }
 
 // buildUpdateEvents turns the field updates for task into events: an optional
